@@ -25,3 +25,16 @@ func init() {
 			Old: "\tExpandEffectiveVolumes bool `json:\"effectiveVolumes\"`", New: "\tExpandEffectiveVolumes bool `json:\"effectiveVolumes\"`\n\tincludeDeleted         bool", Expect: "R17a:"},
 	)
 }
+
+func init() {
+	const expr = "libs/query/expression.go"
+	guard := "\titems := set.items\n\tif items == nil {\n\t\titems = []Builder{}\n\t}\n"
+	addMutants(
+		Mutant{Property: "C17", Name: "empty-set-encoded-as-null", File: expr, Old: guard, New: "\titems := set.items\n", Expect: "R17d:set"},
+		Mutant{Property: "C17", Name: "empty-set-null-accepted-by-decoder", File: expr, Old: guard, New: "\titems := set.items\n",
+			Edits:  []Edit{{File: expr, Old: "\t\treturn set, nil\n\tdefault:\n\t\treturn set, fmt.Errorf(\"unexpected type %T\", value)", New: "\t\treturn set, nil\n\tcase nil:\n\t\treturn set, nil\n\tdefault:\n\t\treturn set, fmt.Errorf(\"unexpected type %T\", value)"}},
+			Expect: "none", Benign: true},
+		Mutant{Property: "C17", Name: "set-items-copied-into-fresh-slice", File: expr, Old: guard, New: "\titems := make([]Builder, 0, len(set.items))\n\titems = append(items, set.items...)\n", Expect: "none", Benign: true},
+		Mutant{Property: "C17", Name: "not-encoded-through-pointer", File: expr, Old: "\t\t\"$not\": n.expression,\n", New: "\t\t\"$not\": []Builder{n.expression},\n", Expect: "R17d:not"},
+	)
+}
